@@ -526,7 +526,7 @@ def _safe(s):
 
 
 def simple_kernel_main(prop, harnesses, items_fn, rule, bounds_fn, outside, extra_assumptions=(), with_zonedb=False,
-                       with_zonedbx=False, jobs=8, spec_concrete=None, pre=None):
+                       with_zonedbx=False, jobs=8, spec_concrete=None, pre=None, post_run=None):
     """Boiler-plate main() for kernel-lemma checks: items_fn(args, thorough) -> work items."""
     a = parse_args(prop)
     kc = KernelCheck(a, harnesses, with_zonedb=with_zonedb, with_zonedbx=with_zonedbx)
@@ -539,5 +539,7 @@ def simple_kernel_main(prop, harnesses, items_fn, rule, bounds_fn, outside, extr
     items = items_fn(a, thorough)
     res = kc.run_items(items, jobs=jobs)
     kc.judge_kernel(res)
+    if post_run is not None:
+        post_run(kc)
     cov = kc.kernel_coverage(rule=rule, bounds=bounds_fn(a, thorough), outside=outside)
     kc.finish(cov, list(extra_assumptions))
